@@ -138,7 +138,7 @@ type outcome struct {
 	pt       point
 	hit      *instance // nil: the kill did not land inside the workload (before start / not delivered)
 	hitDesc  string
-	inWindow bool // between first write and last link/rename
+	inWindow bool  // between first write and last link/rename
 	err      error // *fshelper.Violation or harness error
 	harness  bool
 	note     string
